@@ -22,6 +22,8 @@ structure CS where
   algs : Option Algs := none
   sfl : Nat := 0
   attrFlags : Nat := 0                     -- what the profile's Attributes switch on
+  firstParms : String := ""
+  maxSfl : Nat := 0                        -- the StateFormatLevel the profile may use at most: what decides whether a key size exists
   active : Option String := none           -- ActiveProfile text reported first
   first : Surface := {}
   cur : Surface := {}
@@ -81,6 +83,13 @@ def verdict (js : String) : Option (List Nat × Algs × Nat × Nat) :=
       | some (en, s1), some a, some (fl, s3) => some (en, a, max (max (max s1 2) (req.getD 0)) s3, fl)
       | _, _, _ => none
 
+/-- the highest StateFormatLevel the profile allows: the built-ins have theirs, a custom profile the one it names, else the library's -/
+def maxSflOf (js : String) : Nat :=
+  match strField js "Name" with
+  | some "null" => 1
+  | some "default-v1" => STATE_FORMAT_LEVEL_CURRENT
+  | _ => match numField js "StateFormatLevel" with | some 0 => STATE_FORMAT_LEVEL_CURRENT | some l => l | none => STATE_FORMAT_LEVEL_CURRENT
+
 def parseList (s : String) : List Nat := (s.splitOn ",").filterMap String.toNat?
 def libImplemented (cc : Nat) : Bool := match Gen.ccTable.find? (·.1 == cc) with | some (_, _, _, impl, _) => impl | none => false
 def hexNat (s : String) : Nat := s.toList.foldl (fun acc c => acc * 16 + ((hexVal c).getD 0)) 0
@@ -131,10 +140,45 @@ def checkSurface (c : CS) (tag : String) : CS :=
       | _ => c) c
   | _, _ => c
 
+/-- algorithms, curves, key sizes, modes and schemes inside a command (TPM2_Hash, TPM2_TestParms): must the TPM accept? -/
+def hasAlg (a : Algs) (id : Nat) : Bool := a.enabled.contains id
+def symOk (a : Algs) (sfl alg bits : Nat) : Bool := hasAlg a 0x25 && symSizeOk a alg bits sfl
+def parmExpect (a : Algs) (sfl : Nat) (kind : Char) (x y : Nat) : Option Bool :=
+  if kind = 'h' then some (hasAlg a x)
+  else if kind = 'c' then some (hasAlg a 0x23 && curveOk a x)
+  else if kind = 's' then some (symOk a sfl x y && hasAlg a 0x43)
+  else if kind = 'm' then some (symOk a sfl 6 256 && hasAlg a x)
+  else if kind = 'k' then some (hasAlg a 8 && hasAlg a 5 && hasAlg a x)
+  else if kind = 'r' then some (rsaOk a 2048 sfl && hasAlg a x && (x == 0x15 || hasAlg a 0xB))
+  else if kind = 'e' then some (hasAlg a 0x23 && curveOk a 4 && hasAlg a x && hasAlg a 0xC)
+  else none
+
+def checkParms (c : CS) (tag : String) (list : String) : CS :=
+  match c.enabled, c.algs with
+  | some en, some a =>
+    (list.splitOn ",").foldl (fun c item =>
+      match item.splitOn ":" with
+      | [idS, rcs] =>
+        let kind := idS.toList.headD ' '
+        let nums := ((String.ofList (idS.toList.drop 1)).splitOn "_").filterMap String.toNat?
+        let x := nums.headD 0; let y := (nums.drop 1).headD 0
+        let rc := hexNat rcs
+        let cmdOn := if kind = 'h' then enabledCmd en 0x17D else enabledCmd en 0x18A
+        if !cmdOn then (if rc ≠ 0x143 then mism c s!"SPEC[disabled-command-answered] [{tag}] probe {idS}: its command is disabled but answered {rcs}" else c) else
+        match parmExpect a c.maxSfl kind x y with
+        | none => c
+        | some ok =>
+          let c := branch c s!"parm/{kind}/expect={ok}"
+          if ok ∧ rc ≠ 0 then mism c s!"SPEC[algorithm-refused] [{tag}] probe {idS} (algorithm/curve/size/mode/scheme enabled by the profile) was refused with {rcs}"
+          else if !ok ∧ rc = 0 then mism c s!"SPEC[disabled-algorithm-accepted] [{tag}] probe {idS} uses an algorithm, curve, key size, mode or scheme the profile disables but was accepted"
+          else c
+      | _ => c) c
+  | _, _ => c
+
 def step (c : CS) (l : Line) : CS :=
   let c := { c with line := c.line + 1 }
   match l.kind with
-  | "hist" => { c with enabled := none, algs := none, active := none, first := {}, cur := {}, curTag := "", pendingReject := none }
+  | "hist" => { c with enabled := none, algs := none, active := none, first := {}, cur := {}, curTag := "", pendingReject := none, firstParms := "" }
   | "setprofile" =>
       let c := ev c
       let js := String.ofList (chars (l.bytes "json"))
@@ -149,7 +193,7 @@ def step (c : CS) (l : Line) : CS :=
         let c := if fl &&& observable ≠ spec &&& observable then
           mism c s!"SPEC[attribute-table] the attributes {(strField js "Attributes").getD ""} switch on flags {fl} by the library's table, {spec} by their definition" else c
         -- the probes are judged against what the attributes mean
-        { c with enabled := some en, algs := some a, sfl := s, attrFlags := spec ||| fl }
+        { c with enabled := some en, algs := some a, sfl := s, attrFlags := spec ||| fl, maxSfl := maxSflOf js }
       | none => c
   | "maininit" =>
       match c.pendingReject with
@@ -180,6 +224,13 @@ def step (c : CS) (l : Line) : CS :=
         let c := checkSurface c tag
         if tag = "first" then { c with first := c.cur }
         else if c.first != c.cur then mism c s!"SPEC[surface-changed] [{tag}] the command/algorithm surface differs from the one after the first start" else c
+  | "parms" =>
+      let c := ev c
+      let tag := l.str "tag"
+      if tag = "baseline" then c else
+      let c := checkParms c tag (l.str "list")
+      if tag = "first" then { c with firstParms := l.str "list" }
+      else if c.firstParms ≠ l.str "list" then mism c s!"SPEC[surface-changed] [{tag}] algorithm probes inside commands answer differently than after the first start" else c
   | "attrprobe" =>
       -- what the profile's attributes enforce; the harness sends these only for profiles that leave every algorithm and command on
       let c := ev c
